@@ -577,6 +577,16 @@ func (n *Node) WriteFrameExcept(exceptChannel *Channel, fr frame.Frame) error {
 }
 
 func (n *Node) pushEvent(evt Event) {
+	// once the node is closing, do not deliver any new event.
+	// Without this check, the select below picks randomly between delivering and dropping
+	// each event, and the application can receive an event of a channel after a previous event
+	// of the same channel (for instance, EventChannelOpen) has been dropped.
+	select {
+	case <-n.terminate:
+		return
+	default:
+	}
+
 	select {
 	case n.chEvent <- evt:
 	case <-n.terminate:
